@@ -113,10 +113,10 @@ func c15Run(t *testing.T, s Scenario, src verifsim.DecisionSource, keep bool) *R
 		}
 	}
 	var outPath, query string
-	cur := -1         // index of the running process
-	var base []byte   // content of the outfile when the current process started (nil: absent)
+	cur := -1       // index of the running process
+	var base []byte // content of the outfile when the current process started (nil: absent)
 	baseExists := false
-	fsParks := 0      // FS parks of the current process
+	fsParks := 0 // FS parks of the current process
 	pointsInspected := 0
 	kills := 0
 	var procNode *verifsim.Node
